@@ -24,7 +24,8 @@ def sources(tier):
                 ("halfmult", ledger.FEES[0], q, deposit, 3), ("spot+spot", ledger.FEES[3], q, deposit, 2),
                 ("spot1+fut", ledger.FEES[0], q, deposit, 2, 0.05), ("fut+fut", ledger.FEES[1], q, deposit, 2, 0.05),
                 ("three", ledger.FEES[0], q, deposit, 2), ("three", ledger.FEES[1], q, deposit, 2),
-                ("spot1+fut", ledger.FEES[0], q, deposit, 2, 0.0, True), ("fut+fut", ledger.FEES[1], q, deposit, 2, 0.0, True)]
+                ("spot1+fut", ledger.FEES[0], q, deposit, 2, 0.0, True), ("fut+fut", ledger.FEES[1], q, deposit, 2, 0.0, True),
+                ("spot1+fut", ledger.FEES[6], q, deposit, 2), ("three", ledger.FEES[6], q, deposit, 1)]
     out = []
     for u in ledger.UNIVERSES:
         for f in (ledger.FEES[0], ledger.FEES[1], ledger.FEES[4], ledger.FEES[5]):
@@ -35,6 +36,8 @@ def sources(tier):
         out.append((u, ledger.FEES[1], q, deposit, 2, 0.05))
         out.append((u, ledger.FEES[0], q, deposit, 2, 0.0, True))
     out.append(("spot1+fut", ledger.FEES[1], q, deposit, 3, 0.0, True))
+    for u in ledger.UNIVERSES:
+        out.append((u, ledger.FEES[6], q, deposit, 2))
     return out
 
 
